@@ -1278,6 +1278,8 @@ class Evaluator:
                     return t if op == "Is" else negate(t)
             elif isinstance(a, V) and isinstance(b, V):
                 r = a == b
+            elif isinstance(a, ClassV) and isinstance(b, ClassV):
+                r = a.ci is b.ci
             else:
                 r = a is b
             return Const(r if op == "Is" else not r)
@@ -1313,7 +1315,12 @@ class Evaluator:
             return Vec([compare(sym, a, x) for x in b.items])
         if not (isinstance(a, V) and isinstance(b, V)):
             if sym in ("==", "!="):
-                r = a is b
+                if isinstance(a, ClassV) and isinstance(b, ClassV):
+                    r = a.ci is b.ci
+                elif isinstance(a, FuncV) and isinstance(b, FuncV):
+                    r = a.fi is b.fi and a.self_obj is b.self_obj
+                else:
+                    r = a is b
                 return Const(r if sym == "==" else not r)
             return Top("compare objects")
         return compare(sym, a, b)
